@@ -1,0 +1,9 @@
+//go:build verif
+
+package actionlint
+
+// VerifOneLine exposes oneLine, which flattens the text of a library's error before it is put
+// into a message, for the verification harness (property C16).
+func VerifOneLine(s string) string {
+	return oneLine(s)
+}
